@@ -40,6 +40,7 @@ package shell
 
 //@ func (*Executor).AcquireSession
 //@ prop C25
+//@ modifies e.sessions
 //@ check lockset
 //@ ghostset slotBalance = old(slotBalance) + ite(err == nil, 1, 0)
 //@ ensures err == nil ==> e.sessions == old(e.sessions) + 1
@@ -48,6 +49,7 @@ package shell
 
 //@ func (*Executor).ReleaseSession
 //@ prop C25
+//@ modifies e.sessions
 //@ check lockset
 //@ ghostset slotBalance = old(slotBalance) - 1
 //@ ensures old(e.sessions) > 0 ==> e.sessions == old(e.sessions) - 1
@@ -56,6 +58,7 @@ package shell
 
 //@ func (*Executor).validateAndAcquire
 //@ prop C25
+//@ modifies e.sessions
 //@ ghostset slotBalance = old(slotBalance) + ite(err == nil, 1, 0)
 //@ ensures err == nil ==> e.config.Enabled
 //@ ensures err == nil ==> e.config.PasswordHash == "" || bcryptOK(e.config.PasswordHash, meta.Password)
@@ -84,5 +87,6 @@ package shell
 // every error path (their slotBalance postconditions above).
 //@ func (*Handler).handleMetadata
 //@ prop C25
+//@ modifies *
 //@ after call NewSession let sessErr = $ret1
 //@ at call ReleaseSession assert sessErr == nil
